@@ -1,5 +1,6 @@
 """C07 - every line is accounted for and stays in the block Python assigns it to."""
 import itertools
+import re
 import time
 
 from pyvc.contracts import Registry
@@ -219,28 +220,125 @@ def extra_obligations(mods, tier, seed):
             args.append(lit if p.kind == p.POSITIONAL_ONLY else f"{p.name}={lit}")
         call = (f"dev.{meth}(" if cls != "Core" else f"{meth}(") + ", ".join(args) + ")"
         decl = "" if cls == "Core" else c8.DEVICES[cls] + "\n"
-        for place, tmpl in (("top-level", "{call}\n"), ("main-loop", "while True:\n    {call}\n    sleep(5)\n"),
-                            ("branch", "c = 1\nif c > 0:\n    {call}\n"), ("function", "def act():\n    {call}\nact()\n"),
-                            ("for-body", "for i in range(2):\n    {call}\n")):
-            with_call = c8.PRELUDE + decl + tmpl.format(call=call)
-            without = c8.PRELUDE + decl + tmpl.format(call="pass")
-            n_calls += 1
-            try:
-                a = repr(P.parse(with_call))
-            except (ValueError, SyntaxError):
-                continue               # rejected with an error
-            except Exception as ex:
-                vanished.append({"call": call, "place": place, "problem": f"{type(ex).__name__}: {ex}"})
-                continue
-            try:
-                b = repr(P.parse(without))
-            except Exception:
-                b = None
-            if a == b:
-                vanished.append({"call": call, "place": place, "problem": "the IR is the same with and without the line"})
+        # the same call with argument expressions that contain parentheses / calls, and with the first argument positional and the rest by keyword
+        variants = [call]
+        num = [a for a in args if re.fullmatch(r"(\w+=)?\d+", a)]
+        if num:
+            a0 = num[0]
+            k, _, v = a0.rpartition("=")
+            variants.append(call.replace(a0, (k + "=" if k else "") + f"abs(({v} + 1) * 1)", 1))
+            variants.append(call.replace(a0, (k + "=" if k else "") + f"max({v}, int(2.0))", 1))
+        if args and "=" in args[0] and all(p.kind != p.KEYWORD_ONLY for p in params[:1]):
+            variants.append((f"dev.{meth}(" if cls != "Core" else f"{meth}(") + ", ".join([args[0].split("=", 1)[1]] + args[1:]) + ")")
+        for call in variants:
+          for place, tmpl in ((("top-level", "{call}\n"), ("main-loop", "while True:\n    {call}\n    sleep(5)\n"),
+                              ("branch", "c = 1\nif c > 0:\n    {call}\n"), ("function", "def act():\n    {call}\nact()\n"),
+                              ("for-body", "for i in range(2):\n    {call}\n")) if call is variants[0] else (("top-level", "{call}\n"), ("main-loop", "while True:\n    {call}\n    sleep(5)\n"))):
+              with_call = c8.PRELUDE + decl + tmpl.format(call=call)
+              without = c8.PRELUDE + decl + tmpl.format(call="pass")
+              n_calls += 1
+              try:
+                  a = repr(P.parse(with_call))
+              except (ValueError, SyntaxError):
+                  continue               # rejected with an error
+              except Exception as ex:
+                  vanished.append({"call": call, "place": place, "problem": f"{type(ex).__name__}: {ex}"})
+                  continue
+              try:
+                  b = repr(P.parse(without))
+              except Exception:
+                  b = None
+              if a == b:
+                  vanished.append({"call": call, "place": place, "problem": "the IR is the same with and without the line"})
     out.append({"name": "C07/no-silent-drop/every-device-method-at-every-nesting", "status": "discharged" if not vanished else "sat", "backend": "enum",
                 "where": f"{n_calls} (statement-form device method or Core helper, nesting) pairs: the call line contributes an IR node (the IR changes when it is removed), or the call is rejected",
                 "time": round(time.time() - t1, 3), "replay": {"vanished": vanished[:6], "count": len(vanished)}, "replay_confirmed": bool(vanished)})
+    # (2c) every typed variant of a helper has the block structure of the one Python function it comes from: the IR bodies of all
+    #      variants of a name have the same tree of statement kinds (types and expressions may differ, blocks may not), and that tree
+    #      nests as deep as Python's AST of the def
+    import ast as _ast
+    import dataclasses as _dc
+    t1 = time.time()
+
+    def shape(nodes):
+        out_ = []
+        for n in nodes:
+            subs = []
+            if _dc.is_dataclass(n):
+                for f in _dc.fields(n):
+                    v = getattr(n, f.name)
+                    if isinstance(v, list) and v and all(_dc.is_dataclass(x) for x in v):
+                        subs.append((f.name, shape(v)))
+                    elif isinstance(v, list) and v and all(isinstance(x, tuple) and len(x) == 2 and isinstance(x[1], list) for x in v):
+                        subs.append((f.name, [shape(x[1]) for x in v]))
+            out_.append((type(n).__name__, subs))
+        return out_
+
+    def depth(sh):
+        d = 0
+        for _, subs in sh:
+            for _, sub in subs:
+                if sub and isinstance(sub[0], list):
+                    d = max([d] + [1 + depth(x) for x in sub])
+                else:
+                    d = max(d, 1 + depth(sub))
+        return d
+
+    def depth_stmt(sh):
+        """nesting depth counted in statements: a branch / handler wrapper is not a level of its own"""
+        d = 0
+        for kind, subs in sh:
+            for _, sub in subs:
+                if sub and isinstance(sub[0], list):
+                    d = max([d] + [1 + depth_stmt(x) for x in sub])
+                else:
+                    d = max(d, depth_stmt(sub) + (0 if kind in ("ConditionalBranch", "CatchClause") else 1))
+        return d
+
+    def py_depth(stmts):
+        d = 0
+        for st_ in stmts:
+            for attr in ("body", "orelse", "handlers", "finalbody"):
+                sub = getattr(st_, attr, None)
+                if isinstance(sub, list) and sub and not isinstance(st_, (_ast.FunctionDef,)):
+                    stm = [x for x in sub if isinstance(x, _ast.stmt)] or [y for h in sub if isinstance(h, _ast.ExceptHandler) for y in h.body]
+                    if attr == "orelse" and len(stm) == 1 and isinstance(stm[0], _ast.If):
+                        d = max(d, py_depth(stm))          # elif chain: same level
+                    else:
+                        d = max(d, 1 + py_depth(stm))
+        return d
+    VARIANT_SCRIPTS = {
+        "if-else-in-for": "def count(v):\n    t = 0\n    for i in range(3):\n        if v > 1:\n            t = t + 2\n        else:\n            t = t + 1\n    return t\ng = 1.5\na = count(1)\nb = count(g)\n",
+        "while-with-break": "def climb(v):\n    n = 0\n    while n < 10:\n        n = n + 1\n        if n > v:\n            break\n    return n\nh = 2.5\na = climb(4)\nb = climb(h)\n",
+        "elif-chain": "def grade(v):\n    if v > 8:\n        r = 3\n    elif v > 4:\n        r = 2\n    else:\n        r = 1\n    return r\nq = 4.5\na = grade(9)\nb = grade(q)\n",
+        "string-variant": "def mark(v):\n    n = 0\n    for i in range(2):\n        if i > 0:\n            n = n + 1\n    return n\nw = 'ab'\na = mark(1)\nb = mark(w)\n",
+        "nested-for-for-if": "def grid(v):\n    t = 0\n    for i in range(2):\n        for j in range(2):\n            if i == j:\n                t = t + v\n        t = t + 1\n    return t\nz = 0.5\na = grid(1)\nb = grid(z)\n",
+        "called-before-second-signature-from-helper": "def inner(v):\n    if v > 1:\n        return 1\n    return 0\ndef outer(x):\n    return inner(x) + inner(2)\ny = 1.5\na = outer(y)\n",
+    }
+    bad = []
+    for vname, vsrc in VARIANT_SCRIPTS.items():
+        try:
+            prog = P.parse(vsrc)
+        except Exception as ex:
+            bad.append({"script": vname, "error": f"{type(ex).__name__}: {ex}"})
+            continue
+        by_name = {}
+        for fn in prog.functions:
+            by_name.setdefault(fn.name, []).append(fn)
+        defs = {n.name: n for n in _ast.parse(vsrc).body if isinstance(n, _ast.FunctionDef)}
+        if not any(len(v) > 1 for v in by_name.values()):
+            bad.append({"script": vname, "error": "no helper has more than one variant (the probe no longer exercises re-specialisation)", "structural": True})
+        for fname, variants in by_name.items():
+            shapes = [shape(v.body) for v in variants]
+            for k, sh in enumerate(shapes[1:], 1):
+                if sh != shapes[0]:
+                    bad.append({"script": vname, "helper": fname, "variant_signatures": [[t for _, t in v.params] for v in (variants[0], variants[k])],
+                                "first_variant_shape": repr(shapes[0])[:300], "other_variant_shape": repr(sh)[:300]})
+            if fname in defs and depth_stmt(shapes[0]) != py_depth(defs[fname].body):
+                bad.append({"script": vname, "helper": fname, "python_nesting_depth": py_depth(defs[fname].body), "ir_nesting_depth": depth_stmt(shapes[0])})
+    out.append({"name": "C07/structure/helper-variants-keep-python-blocks", "status": "discharged" if not bad else "sat", "backend": "enum",
+                "where": f"{len(VARIANT_SCRIPTS)} helpers re-specialised for a second argument signature: every variant's IR has the same tree of statement kinds, nested as deep as Python's def",
+                "time": round(time.time() - t1, 3), "replay": {"failing": bad[:4], "scripts": VARIANT_SCRIPTS if bad else None}, "replay_confirmed": bool(bad)})
     # (3) bounded: _strip_inline_comment against Python's tokenizer
     t2 = time.time()
     alphabet = ["a", "'", '"', "\\", "#", " "]
